@@ -3,7 +3,7 @@
    raw-trace monitors of the pipeline-level properties (C01, C02, C04, C05, C10, C13, C15).
    A trace entry is (objkind objidx kind a b c d): objkind 1 batcher (idx 0 main, 1 dead queue),
    2 stream, 3 processor, 4 pipeline; stream addresses inside a..d are already stream indices. *)
-From Verif Require Import Base.Sx Model.Batcher Model.BatcherGlue Model.Stream Model.Proc Model.StreamFlow Model.Charged Model.Pipe.
+From Verif Require Import Base.Sx Model.Batcher Model.BatcherGlue Model.Stream Model.Proc Model.StreamFlow Model.Charged Model.Pipe Model.StreamOffsets.
 
 Record pentry := { pok : Z; poi : Z; pk : Z; pa : Z; pb : Z; pc : Z; pd : Z }.
 
@@ -15,18 +15,40 @@ Definition pentry_of_sx (s : sx) : option pentry :=
   end.
 
 (* ---- configuration: (procs pool capacity eventTimeoutMs nActions outKind workers batchCount flushMs retry deadq spread) *)
+(* options of the case's 4th element (harness/pipedrv xopts): early = Pipeline.Stop is called with events in flight (no
+   quiescence awaited: labels 116 / 120 instead of 115 / 110); filec = InputPlugin.Commit goes to the real file-input
+   jobProvider.commit (labels 118 / 119); bbytes = BatchSizeBytes of the batchers *)
 Record pcfg := { p_procs : Z; p_capacity : Z; p_actions : Z; p_outkind : Z; p_workers : Z; p_count : Z;
-                 p_retry : Z; p_deadq : bool; p_spread : bool }.
+                 p_retry : Z; p_deadq : bool; p_spread : bool; p_early : bool; p_filec : bool; p_bbytes : Z }.
 Definition pcfg_of_sx (s : sx) : option pcfg :=
   match s with
   | SL [SZ procs; SZ _; SZ cap; SZ _; SZ na; SZ ok; SZ w; SZ cnt; SZ _; SZ retry; SZ dq; SZ spread] =>
       Some {| p_procs := procs; p_capacity := cap; p_actions := na; p_outkind := ok; p_workers := w; p_count := cnt;
-              p_retry := retry; p_deadq := negb (dq =? 0); p_spread := negb (spread =? 0) |}
+              p_retry := retry; p_deadq := negb (dq =? 0); p_spread := negb (spread =? 0);
+              p_early := false; p_filec := false; p_bbytes := 0 |}
   | SL [SZ procs; SZ _; SZ cap; SZ _; SZ na; SZ ok; SZ w; SZ cnt; SZ _; SZ retry; SZ dq; SZ spread; SZ _] =>
       Some {| p_procs := procs; p_capacity := cap; p_actions := na; p_outkind := ok; p_workers := w; p_count := cnt;
-              p_retry := retry; p_deadq := negb (dq =? 0); p_spread := negb (spread =? 0) |}
+              p_retry := retry; p_deadq := negb (dq =? 0); p_spread := negb (spread =? 0);
+              p_early := false; p_filec := false; p_bbytes := 0 |}
   | _ => None
   end.
+
+(* ((key value) ...) = 6th item of the case's 4th element; absent: every option 0 *)
+Fixpoint xopt_find (k : Z) (l : list sx) : Z :=
+  match l with
+  | [] => 0
+  | SL [SZ k'; SZ v] :: r => if k' =? k then v else xopt_find k r
+  | _ :: r => xopt_find k r
+  end.
+Definition xopt (case : sx) (k : Z) : Z :=
+  match case with
+  | SL [_; _; _; SL [_; _; _; _; _; SL opts]] => xopt_find k opts
+  | _ => 0
+  end.
+Definition with_xopts (case : sx) (c : pcfg) : pcfg :=
+  {| p_procs := p_procs c; p_capacity := p_capacity c; p_actions := p_actions c; p_outkind := p_outkind c; p_workers := p_workers c;
+     p_count := p_count c; p_retry := p_retry c; p_deadq := p_deadq c; p_spread := p_spread c;
+     p_early := 0 <? xopt case 9; p_filec := (xopt case 8 =? 1) && negb (p_spread c); p_bbytes := xopt case 10 |}.
 
 (* ---- replay through the component LTSs ------------------------------------------------------- *)
 Definition slabel_of (e : pentry) : option slabel :=
@@ -74,9 +96,9 @@ Definition bentries (es : list pentry) : list entry :=
   flat_map (fun e => match bentry_of e with Some b => [b] | None => [] end) es.
 
 Definition batcher_cfgs (c : pcfg) (atomic : bool) : cfg * cfg :=
-  ({| workers := p_workers c; maxCount := p_count c; maxBytes := 0; retriable := p_outkind c =? 2; retry := p_retry c;
+  ({| workers := p_workers c; maxCount := p_count c; maxBytes := p_bbytes c; retriable := p_outkind c =? 2; retry := p_retry c;
       deadq := p_deadq c; atomic_push := atomic |},
-   {| workers := 1; maxCount := p_count c; maxBytes := 0; retriable := false; retry := 0; deadq := false; atomic_push := atomic |}).
+   {| workers := 1; maxCount := p_count c; maxBytes := p_bbytes c; retriable := false; retry := 0; deadq := false; atomic_push := atomic |}).
 
 (* ---- processors: every processor's labels are replayed through Model/Proc.v ------------------- *)
 (* per processor: (index, current stream, state) *)
@@ -340,7 +362,7 @@ Fixpoint run_charged (s : cst) (es : list pentry) (k : Z) : Z * bool :=
   match es with
   | [] => (k, true)
   | e :: r =>
-      if (pok e =? 4) && (pk e =? 110) then (k, true)          (* quiescence reached: shutdown follows *)
+      if (pok e =? 4) && ((pk e =? 110) || (pk e =? 116)) then (k, true)   (* quiescence reached / Stop called: shutdown follows *)
       else match clabel_of e with
            | Some l => match cstep s l with
                        | Some s' => run_charged s' r (k + 1)
@@ -360,6 +382,7 @@ Fixpoint m_no_sleeper (es : list pentry) (q sl w : Z) : bool :=
       (* at quiescence every wake-up that was issued must have been consumed: a Signal that did not wake
          anybody although a processor slept shows up here *)
       if (pok e =? 4) && (pk e =? 110) then (w =? 0) else
+      if (pok e =? 4) && (pk e =? 116) then true else          (* Stop called with events in flight: shutdown follows *)
       let ok := (sl <=? w) || (q <=? w) in
       match clabel_of e with
       | Some CCharge => ok && m_no_sleeper r (q + 1) sl w
@@ -413,6 +436,47 @@ Definition m_conservation (es : list pentry) : bool :=
   let c := input_commits es in
   let d := drops es in
   nodup_keys (c ++ d) && forallb (fun k => mem_key k p) (c ++ d) && forallb (fun k => mem_key k (c ++ d)) p.
+
+(* shutdown with events in flight: what is in flight stays un-finished, so only the safety half is claimed - every commit /
+   drop is of an event that was put, none twice *)
+Definition m_conservation_safe (es : list pentry) : bool :=
+  let p := puts es in
+  let c := input_commits es in
+  let d := drops es in
+  nodup_keys (c ++ d) && forallb (fun k => mem_key k p) (c ++ d).
+
+(* ---- admission: what In() said and what the streams saw agree ------------------------------------- *)
+(* a record In() refused (label 111: (source, offset)) - empty / over the size limit / antispam / undecodable / refused by
+   the input - is never put into a stream (hence never committed); at quiescence the number of records In() accepted is the
+   number of regular events put into streams *)
+Definition put_records (es : list pentry) : list (Z * Z) :=
+  flat_map (fun e => if is_k 2 20 e && (pd e =? 0) then [(pb e, pc e)] else []) es.
+Definition m_admission (es : list pentry) : bool :=
+  let p := put_records es in
+  forallb (fun e => negb (is_k 4 111 e) || negb (mem_key (pa e, pb e) p)) es &&
+  forallb (fun e => negb (is_k 4 110 e) || (pc e =? Z.of_nat (length p))) es.
+
+(* ---- C02, consumer side: the commits as the file input sees them ---------------------------------- *)
+(* with option 8 every InputPlugin.Commit (label 38: stream a, offset c) is forwarded to the real jobProvider.commit of the file
+   input: label 118 (stream a, offset b, panicked d) follows it, labels 119 (stream b, stored offset c) report the offsets the
+   provider holds at the end.  The forwarded commit is the input commit just seen on that stream; Model/StreamOffsets.v must
+   accept it (the stored offset moves forward: no "offset corruption") and the real code must not have panicked; the stored
+   offsets are the model's, for every stream the model holds one for *)
+Fixpoint m_filec_go (es : list pentry) (t : fcst) (last38 : list (Z * Z)) (n38 n118 : Z) (reported : list Z) : bool :=
+  match es with
+  | [] => (n38 =? n118) && forallb (fun kv : Z * Z => mem_z (fst kv) reported) t
+  | e :: r =>
+      if is_k 4 38 e then m_filec_go r t ((pa e, pc e) :: last38) (n38 + 1) n118 reported
+      else if is_k 4 118 e then
+        match last_of (pa e) last38, fc_commit t (pa e) (pb e) with
+        | Some off, Some t' => (off =? pb e) && (pd e =? 0) && m_filec_go r t' last38 n38 (n118 + 1) reported
+        | _, _ => false
+        end
+      else if is_k 4 119 e then (0 <=? pb e) && (fc_get t (pb e) =? pc e) && m_filec_go r t last38 n38 n118 (pb e :: reported)
+      else m_filec_go r t last38 n38 n118 reported
+  end.
+Definition m_filec (c : pcfg) (es : list pentry) : bool :=
+  if p_filec c then m_filec_go es [] [] 0 0 [] else no_kind 118 es && no_kind 119 es.
 
 (* ---- C01: commit implies acked, and the frontier ------------------------------------------------ *)
 (* at every input commit of (s, seq): the event had been handed to the output (ProcOut) and, when the
@@ -582,16 +646,28 @@ Definition m_no_wedge (es : list pentry) : bool :=
   no_kind 103 es && no_kind 101 es && forallb (fun e => negb (pk e =? 114) || (pa e <=? pb e)) es.
 
 (* ---- verdict assembly ---------------------------------------------------------------------------- *)
-Definition lts_ok (atomic : bool) (c : pcfg) (es : list pentry) : bool * sx :=
-  let '(n, t, ok) := run_stream sinit es 0 in
-  let be := bentries es in
+(* the trace up to the call of Pipeline.Stop (label 116, early-stop cases only).  Streams and batchers are replayed on the
+   whole trace (unlock events and Batcher.Stop are part of their models).  The processor model describes the running
+   pipeline: streamer.stop() hands every stream an unlock event, which makes the owner leave its stream at once - also
+   with an event held (processEvent returns on the unlock event before the busy-action check) - and go on with other
+   streams; that is outside Model/Proc.v, whose runs (and the flows / the product built on it) end at the call *)
+Fixpoint before_stop (es : list pentry) : list pentry :=
+  match es with
+  | [] => []
+  | e :: r => if is_k 4 116 e then [] else e :: before_stop r
+  end.
+
+Definition lts_ok (atomic : bool) (c : pcfg) (es0 : list pentry) : bool * sx :=
+  let '(n, t, ok) := run_stream sinit es0 0 in
+  let be := bentries es0 in
+  let es := if p_early c then before_stop es0 else es0 in
   let '(cm, cd) := batcher_cfgs c atomic in
   let '(n1, s1, ok1) := if 1 <=? p_outkind c then run_entries cm 0 (init cm) be 0 else (0, init cm, true) in
   let '(n2, s2, ok2) := if p_deadq c then run_entries cd 1 (init cd) be 0 else (0, init cd, true) in
   let '(n3, ok3) := run_procs (p_actions c) [] es 0 in
   let '(n4, ok4) := if p_spread c || p_deadq c then (0, true)   (* spread routing / dead queue: recorded findings, not replayed *)
                     else run_flows (p_actions c) (p_outkind c =? 0) {| fl_cur := []; fl_st := [] |} es 0 in
-  let '(n5, ok5) := run_charged cinit es 0 in
+  let '(n5, ok5) := run_charged cinit es0 0 in
   let '(n6, ok6) := if (1 <=? p_outkind c) && negb (p_spread c) && negb (p_deadq c)
                     then run_pipe cm (p_actions c) {| pp_cur := []; pp_g := ginit cm; pp_ic := [] |} es 0 else (0, true) in
   (ok && negb (scrashed t) && ok1 && ok2 && negb (crashed s1) && negb (crashed s2) && ok3 && ok4 && ok5 && ok6,
@@ -607,7 +683,8 @@ Definition pipe_run (atomic : bool) (mon : pcfg -> list pentry -> list (Z * bool
   match case, as_list pentry_of_sx obs with
   | SL (cs :: _), Some es =>
       match pcfg_of_sx cs with
-      | Some c =>
+      | Some c0 =>
+          let c := with_xopts case c0 in
           let '(ok, m) := lts_ok atomic c es in
           match failing (mon c es) with
           | [] => if ok then Agree else Differ m
@@ -624,19 +701,26 @@ Definition quiescent (es : list pentry) : bool := no_kind 103 es.
    5 frontier, 6 commit not via an acknowledged batch, 7 pool conservation, 8 per-source frontier (spread),
    9 time-out to an idle action, 10 busy action saw another stream, 11 a processor sleeps while a charged stream has no wake-up coming,
    12 a stream's commit number moved backwards, 13 input commit of a (source, offset) that was never accepted,
-   14 a batcher committed an event its own output never acknowledged (e.g. the main batcher after handing the batch to the dead queue) *)
+   14 a batcher committed an event its own output never acknowledged (e.g. the main batcher after handing the batch to the dead queue),
+   15 a record In() refused reached a stream / the accepted count is not the number of events put into streams,
+   16 the file input fed with the commit notifications hit "offset corruption" / stores something else than the last commit of a stream.
+   Early-stop cases (Pipeline.Stop with events in flight) claim no completeness: 4 and 7 keep their safety halves *)
+Definition conservation_mon (c : pcfg) (es : list pentry) : bool :=
+  if p_early c then m_conservation_safe es else m_conservation es.
 Definition c02_mon (c : pcfg) (es : list pentry) : list (Z * bool) :=
-  [(1, m_no_wedge es); (2, m_commits_increasing es [] []); (3, nodup_keys (input_commits es)); (4, m_conservation es);
-   (12, m_scommit_monotone es [])].
+  [(1, m_no_wedge es); (2, m_commits_increasing es [] []); (3, nodup_keys (input_commits es)); (4, conservation_mon c es);
+   (12, m_scommit_monotone es []); (15, m_admission es); (16, m_filec c es)].
 Definition c01_mon (c : pcfg) (es : list pentry) : list (Z * bool) :=
   [(1, m_no_wedge es); (5, m_frontier es [] [] []);
    (6, (p_outkind c =? 0) ||
        (m_commit_via_batcher es [] && m_outend_before_commit (of_b 0 (bentries es)) [] [] [] &&
         m_outend_before_commit (of_b 1 (bentries es)) [] [] []));
-   (14, (p_outkind c =? 0) || m_commit_acked (p_outkind c =? 2) (p_deadq c) es [] [] [] [])].
-Definition c05_mon (c : pcfg) (es : list pentry) : list (Z * bool) := [(1, m_no_wedge es); (7, m_pool_conservation true es)].
+   (14, (p_outkind c =? 0) || m_commit_acked (p_outkind c =? 2) (p_deadq c) es [] [] [] []);
+   (15, m_admission es)].
+Definition c05_mon (c : pcfg) (es : list pentry) : list (Z * bool) :=
+  [(1, m_no_wedge es); (7, m_pool_conservation (negb (p_early c)) es); (15, m_admission es)].
 Definition c04_mon (c : pcfg) (es : list pentry) : list (Z * bool) :=
-  [(1, m_no_wedge es); (4, m_conservation es); (11, m_no_sleeper es 0 0 0); (12, m_scommit_monotone es [])].
+  [(1, m_no_wedge es); (4, conservation_mon c es); (11, m_no_sleeper es 0 0 0); (12, m_scommit_monotone es [])].
 Definition c10_mon (c : pcfg) (es : list pentry) : list (Z * bool) :=
   [(1, m_no_wedge es); (8, m_source_frontier es [] [] []); (13, m_commit_of_accepted es [])].
 Definition c13_mon (c : pcfg) (es : list pentry) : list (Z * bool) := [(1, m_no_wedge es); (9, m_timeout_to_busy es)].
